@@ -2657,6 +2657,12 @@ func (s *Store) ChecksInStateByNodeMeta(ws memdb.WatchSet, state string, filters
 		return 0, nil, err
 	}
 
+	// Which checks are returned also depends on the metadata of their nodes, and
+	// a write that only changes a node's metadata does not move the checks index.
+	if nodesIdx := catalogNodesMaxIndex(tx, entMeta, peerName); nodesIdx > idx {
+		idx = nodesIdx
+	}
+
 	return parseChecksByNodeMeta(tx, ws, idx, iter, filters, entMeta, peerName)
 }
 
